@@ -37,12 +37,17 @@ class RawMesh:
         return [self.name, [(et, c) for et, c in self.groups], self.coord]
 
 
+def node_tags(g) -> dict:
+    """{tag: nodes} of an element group through its public accessors."""
+    return {t: np.asarray(g.Get_Nodes_Tag(t), dtype=int) for t in g.nodeTags}
+
+
 def raw_of(mesh, name="?") -> RawMesh:
     groups = []
     tags = {}
     for et, g in mesh.dict_groupElem.items():
         groups.append((str(et.value if hasattr(et, "value") else et), np.array(g.connect, dtype=int)))
-        tags[groups[-1][0]] = {t: np.array(n, dtype=int) for t, n in g._dict_nodes_tags.items()}
+        tags[groups[-1][0]] = {t: np.array(n, dtype=int) for t, n in node_tags(g).items()}
     return RawMesh(name, groups, np.array(mesh.coord, dtype=float), tags)
 
 
